@@ -13,6 +13,7 @@ META = {
         "(4) trampoline words: FF D0 CC (call *%rax; int3), FF E0 (jmp *%rax) and 0F 05 (syscall) in the low bytes with the upper 6 bytes of the original word kept (bit-provenance); "
         "(5) the code that is overwritten is at the thread's real pc: CallContext.pc is derived from the register snapshot that is restored, not from the user-selected frame; "
         "(6) the process-global call cache is invalidated whenever a debugger/debuggee process is created."
+        " Also: the injected call's register image moves rsp below the red zone and aligns it to 16 bytes."
     ),
     "not_decided": "that f ran exactly once with those arguments; equality of vard/argd output with the program's own {:?}; literal conversion arithmetic (value-level)",
     "assumptions": ["x86-64 SysV ABI, Linux syscall ABI", "little-endian instruction bytes"],
